@@ -53,6 +53,11 @@ pub enum Scenario {
     /// decision and its action; a second request without any deadline then runs to a peer that pauses `pause_ms` inside
     /// the body. Whatever the first request's threads still do, they do it to the first request's connection only.
     Successor { pause_ms: u16 },
+    /// the caller drops the response while the peer is stalling inside the body (kind 0 length-delimited, 1 chunked, 2 nothing
+    /// after the head), long before any timeout: the drop returns at once and the request's thread and socket are gone
+    EarlyDrop { kind: u8, read_some: bool },
+    /// the peer reads the request head, then closes in the middle of a large upload, long before T: the error is not a time-out
+    UploadClosed { close_after_ms: u16 },
 }
 
 #[derive(Debug, Clone, Serialize, Deserialize, PartialEq, Eq, Hash)]
@@ -365,11 +370,111 @@ fn check_successor(pause_ms: u16, ctx: &mut Ctx) -> Outcome {
     }
 }
 
+/// See Scenario::EarlyDrop. T = 3 s and R = 2 s are far away: whatever takes long here is not waiting for a timeout to save it.
+fn check_early_drop(kind: u8, read_some: bool, ctx: &mut Ctx) -> Outcome {
+    ctx.nontrivial = true;
+    ctx.label("response-dropped-while-the-peer-stalls");
+    let wire: Vec<u8> = match kind % 3 {
+        0 => b"HTTP/1.1 200 OK\r\nContent-Length: 1000\r\n\r\n0123456".to_vec(),
+        1 => b"HTTP/1.1 200 OK\r\nTransfer-Encoding: chunked\r\n\r\n3e8\r\n0123456".to_vec(),
+        _ => b"HTTP/1.1 404 Not Found\r\nContent-Length: 1000\r\n\r\n".to_vec(),
+    };
+    let mut last: Option<Outcome> = None;
+    for _attempt in 0..3 {
+        let baseline = proc_counts();
+        let mut server = match script_server(vec![vec![Step::ReadRequest, Step::Send(wire.clone()), Step::Stall]]) {
+            Ok(s) => s,
+            Err(e) => {
+                eprintln!("C13: cannot set up the peer: {e}");
+                std::process::exit(2);
+            }
+        };
+        let res = attohttpc::get(format!("http://{}/x", server.addr)).proxy_settings(no_proxy()).timeout(Duration::from_secs(3)).read_timeout(Duration::from_secs(2)).send();
+        let mut resp = match res {
+            Ok(r) => r,
+            Err(e) => {
+                server.finish();
+                return Outcome::fail("C13:completed-head-not-returned", format!("send() failed although the head arrived at once: {e:?}"));
+            }
+        };
+        if read_some && kind % 3 != 2 {
+            let mut b = [0u8; 4];
+            let _ = resp.read(&mut b);
+        }
+        let t0 = Instant::now();
+        if kind % 3 == 2 {
+            // (a 4xx whose body never comes: error_for_status drops the response on the caller's behalf)
+            let _ = resp.error_for_status();
+        } else {
+            drop(resp);
+        }
+        let drop_ms = t0.elapsed().as_millis();
+        // the request's own thread and socket are released while the peer still holds its end open
+        let t1 = Instant::now();
+        let mut leak = None;
+        loop {
+            let now = proc_counts();
+            // (the peer: its listener thread, the connection's thread, their two descriptors)
+            if now.0 <= baseline.0 + 2 && now.1 <= baseline.1 + 2 {
+                break;
+            }
+            if t1.elapsed() > Duration::from_millis(300) {
+                leak = Some(format!("tasks {} -> {}, descriptors {} -> {} (of which the peer accounts for 2 and 2) still 300 ms after the drop", baseline.0, now.0, baseline.1, now.1));
+                break;
+            }
+            std::thread::sleep(Duration::from_millis(5));
+        }
+        server.finish();
+        drop(server);
+        if drop_ms > 250 {
+            last = Some(Outcome::fail("C13:drop-blocked", format!("dropping the response took {drop_ms} ms while the peer was stalling (T = 3 s, R = 2 s, kind {kind}, some bytes read first: {read_some})")));
+            ctx.label("re-measured");
+            continue;
+        }
+        if let Some(l) = leak {
+            last = Some(Outcome::fail("C13:resources-not-released", format!("{l}; response dropped while the peer was stalling (kind {kind})")));
+            ctx.label("re-measured");
+            continue;
+        }
+        return Outcome::Pass;
+    }
+    last.unwrap()
+}
+
+/// See Scenario::UploadClosed.
+fn check_upload_closed(close_after_ms: u16, ctx: &mut Ctx) -> Outcome {
+    ctx.nontrivial = true;
+    ctx.label("peer-closes-during-the-upload");
+    let mut server = match script_server(vec![vec![Step::ReadRequest, Step::SleepMs(close_after_ms as u64), Step::Close]]) {
+        Ok(s) => s,
+        Err(e) => {
+            eprintln!("C13: cannot set up the peer: {e}");
+            std::process::exit(2);
+        }
+    };
+    let body = vec![b'u'; 24 << 20];
+    let t0 = Instant::now();
+    let res = attohttpc::post(format!("http://{}/up", server.addr)).proxy_settings(no_proxy()).timeout(Duration::from_secs(5)).read_timeout(Duration::from_secs(4)).bytes(body).send();
+    let ms = t0.elapsed().as_millis();
+    server.finish();
+    match res {
+        // (a peer may well answer early and the client may well read that answer: not this scenario's subject)
+        Ok(_) => Outcome::Pass,
+        Err(e) => {
+            let text = format!("{e:?}");
+            if (text.contains("TimedOut") || text.contains("WouldBlock")) && ms + 1000 < 4000 {
+                return Outcome::fail("C13:upload-error-reported-as-timeout", format!("the peer closed {close_after_ms} ms into a 24 MiB upload; send() failed after {ms} ms with {text} although T = 5 s and R = 4 s were far away"));
+            }
+            Outcome::Pass
+        }
+    }
+}
+
 fn run_once(case: &Case) -> Result<Observed, String> {
     let baseline = proc_counts();
     // server scripts
     let (scripts, upload): (Vec<Vec<Step>>, bool) = match &case.scenario {
-        Scenario::Successor { .. } => unreachable!("handled by check_successor"),
+        Scenario::Successor { .. } | Scenario::EarlyDrop { .. } | Scenario::UploadClosed { .. } => unreachable!("handled by their own functions"),
         Scenario::Stall { point, drip_ms } => {
             let (prompt, rest) = split_response(*point);
             let mut s = vec![];
@@ -519,7 +624,7 @@ impl Property for C13 {
     const ID: &'static str = "C13";
     const RULE: &'static str = "generated fault sequences on real loopback sockets: overall timeout T in [150, 500] ms (or unset, or 1 ms i.e. expired before the connection exists, or 2.5 s i.e. far above R), read timeout R either >> T or 100-200 ms; stall point in {server never reads a 24 MiB upload, before any reply byte, \
 inside the status line, inside a header, after the head, inside a chunk-size line, inside chunk data, between chunks, inside a length body, inside a close-delimited body}; stall kind {silent, one byte every r ms with r < R}; redirect chains whose hops \
-are individually fast but together exceed T; a silence longer than R inside the body followed by a drip faster than R with a caller that reads again after every read error that comes before T (everything still ends by T + margin); and the negative family: responses of all three framings that complete at once, followed by 0..5 further reads some of which happen after T, then drop; a successor request without any deadline sent while the watchdog thread of an earlier, overdue and dropped request is held between its decision and its action (the successor is never the one that is cut). Optional schedule perturbation: delays injected at the six \
+are individually fast but together exceed T; a silence longer than R inside the body followed by a drip faster than R with a caller that reads again after every read error that comes before T (everything still ends by T + margin); and the negative family: responses of all three framings that complete at once, followed by 0..5 further reads some of which happen after T, then drop; a successor request without any deadline sent while the watchdog thread of an earlier, overdue and dropped request is held between its decision and its action (the successor is never the one that is cut); a response dropped while the peer stalls inside the body, T and R seconds away (the drop returns at once, thread and socket are gone 300 ms later); a peer that closes 50 ms into a 24 MiB upload (the error is not a time-out). Optional schedule perturbation: delays injected at the six \
 labelled points of the watchdog / reader (verif-hooks H3). Oracle S1-S4. non-trivial = the stall begins after the head, or drip-feeding, or a redirect chain, or >= 1 read after end-of-body; distinct by case";
 
     fn assumptions() -> Vec<String> {
@@ -588,6 +693,15 @@ labelled points of the watchdog / reader (verif-hooks H3). Oracle S1-S4. non-tri
             v.push(Case { scenario: Scenario::Stall { point: p, drip_ms: 0 }, t_ms: 0, r_ms: 0, reads: vec![4096], sched: vec![], tunnel: false, api: 0, prepared: 0 });
         }
         v.push(Case { scenario: Scenario::Stall { point: StallPoint::AfterHead, drip_ms: 0 }, t_ms: 2500, r_ms: 0, reads: vec![4096], sched: vec![], tunnel: false, api: 0, prepared: 0 });
+        for kind in 0..3u8 {
+            for read_some in [false, true] {
+                if kind == 2 && read_some {
+                    continue;
+                }
+                v.push(Case { scenario: Scenario::EarlyDrop { kind, read_some }, t_ms: 3000, r_ms: 2000, reads: vec![], sched: vec![], tunnel: false, api: 0, prepared: 0 });
+            }
+        }
+        v.push(Case { scenario: Scenario::UploadClosed { close_after_ms: 50 }, t_ms: 5000, r_ms: 4000, reads: vec![], sched: vec![], tunnel: false, api: 0, prepared: 0 });
         v.push(Case { scenario: Scenario::Successor { pause_ms: 400 }, t_ms: 150, r_ms: 5000, reads: vec![], sched: vec![], tunnel: false, api: 0, prepared: 0 });
         v.push(Case { scenario: Scenario::Stall { point: StallPoint::ConnectNamed, drip_ms: 0 }, t_ms: 300, r_ms: 5000, reads: vec![4096], sched: vec![], tunnel: false, api: 0, prepared: 0 });
         // the connection attempt itself is never answered
@@ -709,6 +823,12 @@ labelled points of the watchdog / reader (verif-hooks H3). Oracle S1-S4. non-tri
         if let Scenario::Successor { pause_ms } = &case.scenario {
             return check_successor(*pause_ms, ctx);
         }
+        if let Scenario::EarlyDrop { kind, read_some } = &case.scenario {
+            return check_early_drop(*kind, *read_some, ctx);
+        }
+        if let Scenario::UploadClosed { close_after_ms } = &case.scenario {
+            return check_upload_closed(*close_after_ms, ctx);
+        }
         let t = case.t_ms as u128;
         let r = case.r_ms as u128;
         let sched_delay: u128 = case.sched.iter().map(|(_, d)| *d as u128).sum::<u128>() * 3;
@@ -805,7 +925,7 @@ labelled points of the watchdog / reader (verif-hooks H3). Oracle S1-S4. non-tri
                         timing_fail = Some(Outcome::fail("C13:chain-outlived-deadline", format!("{} hops were requested, at most {max_hops} fit into T; {describe}", obs.accepted)));
                     }
                 }
-                Scenario::Successor { .. } => unreachable!("handled by check_successor"),
+                Scenario::Successor { .. } | Scenario::EarlyDrop { .. } | Scenario::UploadClosed { .. } => unreachable!("handled by their own functions"),
                 Scenario::Complete { payload, extra_reads, .. } => {
                     ctx.label("complete");
                     ctx.nontrivial = !extra_reads.is_empty();
